@@ -54,6 +54,25 @@ impl Collector for CustomColl {
 }
 
 impl Obj {
+    /// (family name, type) pairs this collector exposes.
+    fn exposes(&self) -> Vec<(String, NType)> {
+        let one = |c: &dyn Collector, t: NType| c.desc().iter().map(|d| (d.fq_name.clone(), t)).collect::<Vec<_>>();
+        match self {
+            Obj::C(m) => one(m, NType::Counter),
+            Obj::IC(m) => one(m, NType::Counter),
+            Obj::G(m) => one(m, NType::Gauge),
+            Obj::IG(m) => one(m, NType::Gauge),
+            Obj::H(m) => one(m, NType::Histogram),
+            Obj::P(m) => one(m, NType::Gauge),
+            Obj::CV(m) => one(m, NType::Counter),
+            Obj::ICV(m) => one(m, NType::Counter),
+            Obj::GV(m) => one(m, NType::Gauge),
+            Obj::IGV(m) => one(m, NType::Gauge),
+            Obj::HV(m) => one(m, NType::Histogram),
+            Obj::Custom(m) => m.fams.iter().map(|f| (f.name().to_string(), NType::from_lib(f.get_field_type()))).collect(),
+        }
+    }
+
     fn boxed(&self) -> Box<dyn Collector> {
         match self {
             Obj::C(m) => Box::new(m.clone()),
@@ -159,6 +178,10 @@ fn gen_custom_family(src: &mut Src) -> (Option<Desc>, MetricFamily, NFamily) {
 }
 
 pub struct Outcome {
+    /// collectors of different metric types were registered under one name in one registry: the
+    /// gathered family type then depends on hash-map order (C14's known finding), so the scenario
+    /// is not deterministic and is discarded by the driver
+    pub mixed: bool,
     pub dump: String,
     pub nontrivial: bool,
     pub summary: String,
@@ -177,6 +200,18 @@ pub fn run(bytes: &[u8]) -> Outcome {
     let mut gathered_fams = 0usize;
     let mut any_label = false;
     let mut any_nonint = false;
+    let mut mixed = false;
+    let mut types_in: HashMap<(usize, String), NType> = HashMap::new();
+    let mut note_registered = |r: usize, ob: &Obj, mixed: &mut bool| {
+        for (name, t) in ob.exposes() {
+            match types_in.get(&(r, name.clone())) {
+                Some(t0) if *t0 != t => *mixed = true,
+                _ => {
+                    types_in.insert((r, name), t);
+                }
+            }
+        }
+    };
 
     let dump_gather = |out: &mut String, reg: &Registry, gathered_types: &mut Vec<NType>, gathered_fams: &mut usize, any_label: &mut bool, any_nonint: &mut bool| {
         let fams = reg.gather();
@@ -259,6 +294,9 @@ pub fn run(bytes: &[u8]) -> Outcome {
                         if src.chance(190) {
                             let r = src.below(regs.len());
                             let res = regs[r].register(ob.boxed());
+                            if res.is_ok() {
+                                note_registered(r, &ob, &mut mixed);
+                            }
                             out.push_str(&format!("{} autoreg@{} {}\n", step, r, match &res { Ok(()) => "ok", Err(e) => err_kind(e) }));
                         }
                         objs.push(ob);
@@ -285,6 +323,9 @@ pub fn run(bytes: &[u8]) -> Outcome {
                         if src.chance(190) {
                             let r = src.below(regs.len());
                             let res = regs[r].register(ob.boxed());
+                            if res.is_ok() {
+                                note_registered(r, &ob, &mut mixed);
+                            }
                             out.push_str(&format!("{} autoreg@{} {}\n", step, r, match &res { Ok(()) => "ok", Err(e) => err_kind(e) }));
                         }
                         objs.push(ob);
@@ -372,6 +413,9 @@ pub fn run(bytes: &[u8]) -> Outcome {
                 let r = src.below(regs.len());
                 let unreg = op == 12;
                 let res = if unreg { regs[r].unregister(objs[i].boxed()) } else { regs[r].register(objs[i].boxed()) };
+                if !unreg && res.is_ok() {
+                    note_registered(r, &objs[i], &mut mixed);
+                }
                 out.push_str(&format!(
                     "{} {}#{}@{} {}\n",
                     step,
@@ -413,6 +457,7 @@ pub fn run(bytes: &[u8]) -> Outcome {
         dump_gather(&mut out, reg, &mut gathered_types, &mut gathered_fams, &mut any_label, &mut any_nonint);
     }
     Outcome {
+        mixed,
         dump: out,
         nontrivial: gathered_fams >= 2 && gathered_types.len() >= 2 && any_label && any_nonint,
         summary: summary.join(" "),
@@ -466,7 +511,7 @@ pub fn serve() {
         let r = std::panic::catch_unwind(|| {
             let a = run(&bytes);
             let b = run(&bytes);
-            (a.dump.clone(), a.dump != b.dump)
+            (a.dump.clone(), a.dump != b.dump || a.mixed)
         });
         match r {
             Ok((dump, nondet)) => {
